@@ -117,7 +117,7 @@ def result_fate(body, site, locals_, producer, depth=0):
     out = []
     tr = _tracked(body, locals_)
     consumed = False
-    firsts = first_switches(body, producer.bb, tr, "std::result::Result")
+    firsts = first_switches(body, producer.bb, tr, "std::result::Result") if producer is not None else _first_from_entry(body, tr)
     for s in body.sites():
         n = s.node
         if s == site:
@@ -140,7 +140,7 @@ def result_fate(body, site, locals_, producer, depth=0):
                 if err is None:
                     out.append((False, "match on the Result has no reachable Err outcome", s))
                 else:
-                    ok, why = err_path_ok(body, err, producer, {producer.bb, s.bb})
+                    ok, why = err_path_ok(body, err, producer, ({producer.bb} if producer is not None else set()) | {s.bb})
                     out.append((ok, "matched: " + why, s))
             continue
         if n["k"] != "call":
@@ -178,11 +178,42 @@ def result_fate(body, site, locals_, producer, depth=0):
     return out
 
 
+def _first_from_entry(body, tracked):
+    found = set()
+    seen = set()
+    work = [0]
+    while work:
+        bb = work.pop()
+        if bb in seen:
+            continue
+        seen.add(bb)
+        sw = mir.switch_enum(body, bb)
+        if sw is not None and sw["enum"] == "std::result::Result":
+            cp = body.canon(sw["place"])
+            if cp["l"] in tracked and not cp["p"]:
+                found.add(bb)
+                continue
+        work.extend(body.succs(bb))
+    return found
+
+
 def scan_results(run, crate, prefix="A3", only=None):
     n = 0
     for body in crate.real_bodies():
         if only is not None and body.name not in only:
             continue
+        # Result-typed parameters (by value) of crate functions are values to account for as well
+        if body.kind != "closure" and not body.name.startswith("<") :
+            for i in range(1, body.arg_count + 1):
+                if is_result(body.local_ty(i)) and body.local_ty(i).get("refs") == 0 and "std::fmt::" not in body.name:
+                    n += 1
+                    site0 = mir.Site(body, 0, None)
+                    fates = result_fate(body, None, {i}, None)
+                    ok = all(f[0] for f in fates)
+                    why = "; ".join(sorted({f[1] for f in fates if f[0] == ok}))[:300]
+                    bad_site = next((f[2] for f in fates if not f[0] and f[2] is not None), site0)
+                    run.ob("%s.result-propagated" % prefix, "%s: parameter %d" % (body.name, i), ok, why, site=bad_site if not ok else mir.line_of(body.span),
+                           key="%s.result|%s|param%d|%s" % (prefix, body.name, i, "ok" if ok else norm(why)[:60]))
         for cs in body.calls():
             t = cs.node
             dty = t["dest"].get("ty", {})
